@@ -152,7 +152,7 @@ func runFuzz(r *vlib.Run) *fuzzOutcome {
 		fmt.Fprintln(os.Stderr, fo.Notes["skipped"])
 		os.Exit(4) // a broken tie, not a pass
 	}
-	fuzzTime := 40 * time.Second
+	fuzzTime := 60 * time.Second
 	if s := os.Getenv("C10_FUZZTIME"); s != "" {
 		if d, err := time.ParseDuration(s); err == nil {
 			fuzzTime = d
